@@ -128,7 +128,22 @@ pub fn run_session(chunks: &mut [J], globals: &starlark::environment::Globals, g
                 Err(p) => ("panic".to_owned(), 0, p),
             };
             let stack = util::catch(std::panic::AssertUnwindSafe(|| eval.call_stack_count())).unwrap_or(usize::MAX);
-            res.push(json!({"out": out, "kind": kind, "line": line, "msg": msg, "stack": stack, "locks": locks, "pushes": pushes, "src": src}));
+            // the embedder's view of the module must stay usable after any outcome: read every name
+            let host = util::catch(std::panic::AssertUnwindSafe(|| {
+                let mut n = 0;
+                for name in module.names() {
+                    if module.get(name.as_str()).is_some() {
+                        n += 1;
+                    }
+                }
+                n
+            }));
+            let host_ok = host.is_ok();
+            let mut rec = json!({"out": out, "kind": kind, "line": line, "msg": msg, "stack": stack, "locks": locks, "pushes": pushes, "src": src, "host_ok": host_ok});
+            if let Err(p) = host {
+                rec["host_panic"] = json!(p);
+            }
+            res.push(rec);
         }
         starlark::verif::set_gc_mode(starlark::verif::GcMode::Default);
     });
@@ -406,23 +421,47 @@ pub fn record_sessions(rest: &[String]) -> anyhow::Result<()> {
     for i in 0..n {
         let mut rng = util::Rng(seed.wrapping_mul(9_000_011).wrapping_add(i));
         let mut chunks: Vec<J> = Vec::new();
+        let mut statics_flags: Vec<bool> = Vec::new();
         {
             let mut g = gen::Gen::new(&mut rng);
             g.set_fail_rate(40);
             for _ in 0..nchunks {
                 let k = 1 + g.rng.below(stmts as u64) as usize;
-                chunks.push(J::Array(g.block(k, 2)));
+                let mut b = g.block(k, 2);
+                // sometimes the chunk refers to a name that is bound nowhere: it must be rejected as a
+                // whole, before any of its statements runs, and leave module and evaluator usable
+                let st = g.rng.chance(1, 7);
+                if st {
+                    let pos = g.rng.below(b.len() as u64 + 1) as usize;
+                    b.insert(pos, json!({"k": "expr", "e": {"k": "call", "f": {"k": "var", "n": "emit"}, "args": [{"k": "var", "n": "undefined_zz"}],
+                        "named": [], "star": {"k": "absent"}, "starstar": {"k": "absent"}}}));
+                }
+                statics_flags.push(st);
+                chunks.push(J::Array(b));
             }
         }
         let res = match util::catch(std::panic::AssertUnwindSafe(|| run_session(&mut chunks, &globals, None))) {
             Ok(r) => r,
             Err(p) => vec![json!({"out": [], "kind": "panic", "line": 0, "msg": p, "stack": 0, "locks": 0})],
         };
-        if res.iter().any(|r| is_static(r["kind"].as_str().unwrap_or(""), r["msg"].as_str().unwrap_or(""))) {
+        // a chunk the generator did not mean to be statically invalid but is: generator defect, drop the session
+        let mut res = res;
+        let mut unexpected = false;
+        for (ci, r) in res.iter_mut().enumerate() {
+            let st = is_static(r["kind"].as_str().unwrap_or(""), r["msg"].as_str().unwrap_or(""));
+            if st {
+                r["kind"] = json!("static");
+                r["line"] = json!(0);
+            }
+            if st && !statics_flags.get(ci).copied().unwrap_or(false) {
+                unexpected = true;
+            }
+        }
+        if unexpected {
             statics += 1;
             continue;
         }
-        out.write(&json!({"a": "session", "id": format!("ss{}n{}", seed, i), "chunks": chunks, "res": res}))?;
+        out.write(&json!({"a": "session", "id": format!("ss{}n{}", seed, i), "chunks": chunks, "static": statics_flags, "res": res}))?;
     }
     out.finish()?;
     println!("{}", json!({"sessions": n, "static_rejected": statics}));
